@@ -37,6 +37,92 @@ pub struct DecodedOp {
     pub imm: Option<u64>,
 }
 
+/// The documented batching of a span (docs/src/design/programs.md "Span block", decoder/main.md
+/// "Operation batch flags"): operations are taken in order; a group holds up to 9 operations or one
+/// immediate; a batch holds up to 8 groups; the immediate of an operation goes to the next group of
+/// the same batch that has not been handed out; an operation carrying an immediate is never the
+/// 9th operation of its group; a batch is closed only when the next operation (with its immediate)
+/// cannot be placed in it under these rules. Returns the 8 group values of every batch (missing
+/// groups are zero = NOOP padding). `ops` = (opcode, immediate).
+pub fn batch_greedy(ops: &[(u8, Option<u64>)]) -> Vec<[u64; 8]> {
+    enum G {
+        Ops(Vec<u8>),
+        Imm(u64),
+    }
+    fn place(batch: &mut Vec<G>, cur: &mut Option<usize>, op: (u8, Option<u64>)) -> bool {
+        let in_cur = cur.map(|c| match &batch[c] {
+            G::Ops(v) => v.len(),
+            G::Imm(_) => unreachable!(),
+        });
+        match op.1 {
+            None => {
+                if let (Some(c), Some(n)) = (*cur, in_cur) {
+                    if n < 9 {
+                        if let G::Ops(v) = &mut batch[c] {
+                            v.push(op.0);
+                        }
+                        return true;
+                    }
+                }
+                if batch.len() < 8 {
+                    batch.push(G::Ops(vec![op.0]));
+                    *cur = Some(batch.len() - 1);
+                    return true;
+                }
+                false
+            }
+            Some(imm) => {
+                if let (Some(c), Some(n)) = (*cur, in_cur) {
+                    if n < 8 {
+                        // stays in the current group (not in its last position): needs one group for the immediate
+                        if batch.len() < 8 {
+                            if let G::Ops(v) = &mut batch[c] {
+                                v.push(op.0);
+                            }
+                            batch.push(G::Imm(imm));
+                            return true;
+                        }
+                        return false;
+                    }
+                }
+                // opens a new group: needs that group and one for the immediate
+                if batch.len() + 2 <= 8 {
+                    batch.push(G::Ops(vec![op.0]));
+                    *cur = Some(batch.len() - 1);
+                    batch.push(G::Imm(imm));
+                    return true;
+                }
+                false
+            }
+        }
+    }
+    fn close(batch: &[G]) -> [u64; 8] {
+        let mut o = [0u64; 8];
+        for (i, g) in batch.iter().enumerate() {
+            o[i] = match g {
+                G::Imm(v) => *v,
+                G::Ops(v) => v.iter().enumerate().map(|(k, c)| (*c as u64) << (7 * k)).sum(),
+            };
+        }
+        o
+    }
+    let mut out = vec![];
+    let mut batch: Vec<G> = vec![];
+    let mut cur: Option<usize> = None;
+    for &op in ops {
+        if !place(&mut batch, &mut cur, op) {
+            out.push(close(&batch));
+            batch.clear();
+            cur = None;
+            assert!(place(&mut batch, &mut cur, op), "an empty batch accepts any operation");
+        }
+    }
+    if !batch.is_empty() {
+        out.push(close(&batch));
+    }
+    out
+}
+
 /// Decodes one batch given its 8 group values and the number of groups it declares, checking the
 /// documented rules on the way. `carries_imm(opcode)` tells which opcodes carry an immediate.
 /// Returns the operations in order (NOOPs included as they appear; trailing NOOPs of a group are
